@@ -370,6 +370,8 @@ fn test_attribute() {
 
 /// Parse a single statement
 fn parse_statement(input: &[LexToken]) -> ParseResult<'_, Statement> {
+    #[cfg(feature = "verif-hooks")]
+    rssl_text::verif::tick(12);
     // Parse attributes before a statement
     let (input, attributes) = parse_multiple(parse_attribute)(input)?;
 
